@@ -768,3 +768,59 @@ func (c *Ctx) r0116(pk *packages.Package) {
 	}
 	c.R.Floor(rule, "saved-and-cleared regions of inFor", regions, 8)
 }
+
+// R01.17: which statements end a block for the jump analysis.
+func (c *Ctx) r0117(pk *packages.Package) {
+	const rule = "R01.17"
+	c.R.Rule(rule, "optimizeStmtList drops an `else` and moves its body behind the `if` when the if-body ends in a jump, judged by lastStmt (which statement ends the body) and isFlowStmt (is it a jump). The rewrite is only right if control cannot fall out of that last statement: lastStmt may look through *js.BlockStmt only — not through labelled statements (`x:{…break x}` completes normally), loops, `if`, `try` or `switch` — and isFlowStmt may accept only *js.ReturnStmt, *js.ThrowStmt and *js.BranchStmt. Both sets are read off the type assertions / type-switch cases of the two functions")
+	info := pk.TypesInfo
+	typesIn := func(fd *ast.FuncDecl) map[string]bool {
+		out := map[string]bool{}
+		ast.Inspect(fd.Body, func(x ast.Node) bool {
+			var te ast.Expr
+			switch e := x.(type) {
+			case *ast.TypeAssertExpr:
+				te = e.Type
+			case *ast.CaseClause:
+				for _, l := range e.List {
+					if t := info.TypeOf(l); t != nil {
+						if n := namedTypeName(deref(t)); strings.HasPrefix(n, pjs+".") {
+							out[n[len(pjs)+1:]] = true
+						}
+					}
+				}
+			}
+			if te != nil {
+				if t := info.TypeOf(te); t != nil {
+					if n := namedTypeName(deref(t)); strings.HasPrefix(n, pjs+".") {
+						out[n[len(pjs)+1:]] = true
+					}
+				}
+			}
+			return true
+		})
+		return out
+	}
+	for _, spec := range []struct {
+		fn      string
+		allowed map[string]bool
+		why     string
+	}{
+		{"lastStmt", map[string]bool{"BlockStmt": true}, "control can fall out of it although its last inner statement is a jump"},
+		{"isFlowStmt", map[string]bool{"ReturnStmt": true, "ThrowStmt": true, "BranchStmt": true}, "it is not an unconditional jump"},
+	} {
+		fd := c.fn(rule, pk, spec.fn)
+		if fd == nil {
+			continue
+		}
+		got := typesIn(fd)
+		var extra []string
+		for t := range got {
+			if !spec.allowed[t] {
+				extra = append(extra, "*js."+t)
+			}
+		}
+		sort.Strings(extra)
+		c.R.Check(len(extra) == 0 && len(got) > 0, rule, "js."+spec.fn+"/statement kinds", c.pos(fd), "only "+joinSorted(spec.allowed), spec.fn+" also accepts "+strings.Join(extra, ", ")+": "+spec.why+", so the else-removal changes which statements run (`if(a){x:{f();break x}}else g();h()` would run g)")
+	}
+}
